@@ -430,14 +430,21 @@ def _phase_derived(fn: ast.FunctionDef, e: ast.AST) -> bool:
                             derived.add(n)
                             changed = True
             elif isinstance(st, (ast.For, ast.comprehension)):
-                src = st.iter
-                hit = any(isinstance(x, ast.Attribute) and x.attr in ("phase", "_phase") for x in ast.walk(src)) or \
-                    any(isinstance(x, ast.Name) and x.id in derived for x in ast.walk(src))
-                if hit:
-                    for x in ast.walk(st.target):
-                        if isinstance(x, ast.Name) and x.id not in derived:
-                            derived.add(x.id)
-                            changed = True
+                def _hit(src):
+                    return any(isinstance(x, ast.Attribute) and x.attr in ("phase", "_phase") for x in ast.walk(src)) or \
+                        any(isinstance(x, ast.Name) and x.id in derived for x in ast.walk(src))
+                pairs = [(st.target, st.iter)]
+                it = st.iter
+                if isinstance(it, ast.Call) and call_name(it) == "zip" and isinstance(st.target, ast.Tuple) and len(st.target.elts) == len(it.args):
+                    pairs = list(zip(st.target.elts, it.args))
+                elif isinstance(it, ast.Call) and call_name(it) == "enumerate" and isinstance(st.target, ast.Tuple) and len(st.target.elts) == 2 and it.args:
+                    pairs = [(st.target.elts[1], it.args[0])]
+                for tgt_, src_ in pairs:
+                    if _hit(src_):
+                        for x in ast.walk(tgt_):
+                            if isinstance(x, ast.Name) and x.id not in derived:
+                                derived.add(x.id)
+                                changed = True
     return any(isinstance(x, ast.Attribute) and x.attr in ("phase", "_phase") for x in ast.walk(e)) or \
         any(isinstance(x, ast.Name) and x.id in derived for x in ast.walk(e))
 
